@@ -105,12 +105,12 @@ class BaseManager:
     def basic_enter_room(self, sid, namespace, room, eio_sid=None):
         if eio_sid is None and namespace not in self.rooms:
             raise ValueError('sid is not connected to requested namespace')
+        if eio_sid is None:
+            eio_sid = self.rooms[namespace][None][sid]
         if namespace not in self.rooms:
             self.rooms[namespace] = {}
         if room not in self.rooms[namespace]:
             self.rooms[namespace][room] = bidict()
-        if eio_sid is None:
-            eio_sid = self.rooms[namespace][None][sid]
         self.rooms[namespace][room][sid] = eio_sid
 
     def basic_leave_room(self, sid, namespace, room):
